@@ -129,7 +129,7 @@ def adp_factory(chk, P):
             "dipole_potentials": Opaque(("pots-from", "EAM-ADP-Dipole")).key(),
             "quadrupole_potentials": Opaque(("pots-from", "EAM-ADP-Quadrupole")).key(),
             "cutoff": W.nsym("cutoff").key(), "nr": W.nsym("nr").key(), "cutoff_rho": W.nsym("cutoff_rho").key(), "nrho": W.nsym("nrho").key()}
-    fsite = fac.ci.lookup("extract_tabulation_args").site()
+    fsite = fac.ci.site_of("extract_tabulation_args")
     if not isinstance(args, ListV) or len(args.items) != len(ctor):
         chk.ob("C19.A2", "argument list matches the constructor's arity", False, site=fsite, found=args, expect=ctor, key="C19.A2|arity")
         return
@@ -205,7 +205,7 @@ def excel_pair(chk, P):
     # write(): the workbook bytes are copied to fp after everything was evaluated (C17) - here: it writes something
     fp = BufV("fp", is_file=True)
     W.run_method(I, tab, "write", [fp])
-    chk.ob("C19.X1", "write(fp) copies the saved workbook to fp", len(fp.pieces) == 1, site=cls.lookup("write").site(), found=fp.pieces,
+    chk.ob("C19.X1", "write(fp) copies the saved workbook to fp", len(fp.pieces) == 1, site=cls.site_of("write"), found=fp.pieces,
            expect="one write of the saved bytes", key="C19.X1|write")
 
 
